@@ -13,6 +13,7 @@ EXPLANATION = (
     'category table is append-only with id = position and duplicates rejected. Does not decide soundness of '
     'the Python grammar (C03/C04) or anything about scores.'
     ' Also (second round): the batch split of depccg/parsing.py covers every sentence exactly once (R11.2 reused), and the rule cache stores the vector the callback filled without touching it.'
+    ' Third round: the score matrices whose raw pointers go to the search are declared 2-d float C-contiguous buffers (R2.2 run:buffer); every accepted chart entry is expanded unconditionally.'
 )
 TRUSTED = ['clang-14 front end (-fsyntax-only, JSON AST)', 'CPython ast', 'the Cython normaliser sa/pyx.py', 'rule table DESIGN.md C02']
 
@@ -30,6 +31,7 @@ def check(repo, rep, tier):
     rc.r_best(m, rep, 'R2.2')
     rc.r_chart(m, rep, 'R2.1')
     rc.r_search_loop(m, rep, 'R2.3')
+    rc.r_expansion_unconditional(m, rep, 'R2.3')   # every accepted entry is expanded: no derivation is left out of the search
     rc.r_guards(m, rep, 'R2.3')
     rc.r_cache(m, rep, 'R2.5')
     rc.r_nbest(m, rep, 'R2.4')
@@ -37,6 +39,7 @@ def check(repo, rep, tier):
     rp.r_tree_factories(repo, rep, 'R2.4')
     ti = rp.r_category_table(repo, rep, 'R2.5')
     rp.r_call_locals(repo, rep, 'R2.5')
+    rp.r_score_buffers(repo, rep, 'R2.2')   # the candidates of a token come from the matrix the caller supplied, read with its real layout
     if ti:
         rp.r_callbacks(repo, rep, 'R2.5')
         rp.r_sentence_loop(repo, rep, 'R2.4', ti)
